@@ -107,7 +107,8 @@ class Ctx:
             else:
                 unknown.append(v)
         stale = [k for k in known_keys if k not in matched]
-        replay_dir = os.path.join(VERIF, "evidence", "replay", self.prop)
+        evdir = os.environ.get("VERIF_EVIDENCE_DIR") or os.path.join(VERIF, "evidence")
+        replay_dir = os.path.join(evdir, "replay", self.prop)
         os.makedirs(replay_dir, exist_ok=True)
         # clean old replay files
         for f in os.listdir(replay_dir):
@@ -179,8 +180,8 @@ class Ctx:
             "wall_s": round(time.time() - self.t0, 3),
             "violations": len(unknown),
         }
-        os.makedirs(os.path.join(VERIF, "evidence"), exist_ok=True)
-        path = os.path.join(VERIF, "evidence", "%s.json" % self.prop)
+        os.makedirs(evdir, exist_ok=True)
+        path = os.path.join(evdir, "%s.json" % self.prop)
         tmp = path + ".tmp"
         with open(tmp, "w") as f:
             json.dump(ev, f, indent=1, default=str)
